@@ -35,10 +35,17 @@ EXPECTED_PROBES = {'quick': ['not_ready', 'speculative_submit', 'cancel_rewind',
 
 
 def gen_workload(tape, spec, pil):
-    meth = tape.choice('method', ['rejection', 'smc', 'rejection', 'smc', 'adsmc'])
+    meth = tape.choice('method', ['rejection', 'smc', 'rejection', 'smc', 'adsmc', 'rejection',
+                                  'smc', 'atsmc'])
     if spec['nodes'][-1 - len(spec.get('extras', []))]['kind'] == 'adist' or meth == 'adsmc':
         meth = 'adsmc' if any(n['kind'] == 'adist' for n in spec['nodes']) else \
             ('smc' if meth == 'adsmc' else meth)
+    if meth == 'atsmc':
+        # AdaptiveThresholdSMC (an SMC variant; threshold schedule chosen by density-ratio
+        # estimation, which needs a population of some size)
+        return {'method': 'atsmc', 'batch_size': tape.int('batch_size', 4, 16),
+                'seed': tape.int('seed', 0, 2 ** 20), 'n_samples': tape.int('n_samples', 12, 30),
+                'output_names': [], 'objective': {'max_iter': tape.int('max_iter', 2, 3)}}
     if meth == 'rejection':
         wl = sr.gen_rejection_workload(tape, spec, pil)
     elif meth == 'smc':
